@@ -31,6 +31,11 @@ import (
 
 const nThreads = 4
 
+// whiteBox is false when the check had to install the stub hooks (zz_verif_segment.go.stub): the
+// token counter and the segment index are then not observable (sentinel -1) and only the black-box
+// laws are exercised; the driver is run in spec mode only.
+var whiteBox = syncx.VerifWhiteBox()
+
 // ---------------------------------------------------------------------------------------------
 // generation
 
@@ -391,6 +396,30 @@ func (sc *segCase) seg(i int) *segState {
 	return st
 }
 
+// heldCounts: write/read holds recorded on exactly this key (hex), and on any key
+func (sc *segCase) heldCounts(hexKey string) (kw, kr, anyW, anyR int) {
+	for h, n := range sc.holds {
+		if n <= 0 {
+			continue
+		}
+		parts := strings.Split(h, "|")
+		write := parts[2] == "true"
+		if write {
+			anyW += n
+		} else {
+			anyR += n
+		}
+		if parts[1] == hexKey {
+			if write {
+				kw += n
+			} else {
+				kr += n
+			}
+		}
+	}
+	return
+}
+
 func (sc *segCase) dump() string {
 	var ks []string
 	for k, n := range sc.holds {
@@ -527,9 +556,18 @@ func segStressRound(size, nkeys, g, iters int, seed uint64, st *stats) (string, 
 	// "Unlock of unlocked RWMutex" inside the workload): while Lock(k) is held, TryLock/TryRLock fail
 	probeViol := 0
 	if p := vlib.Catch(func() {
-		s.Lock(fresh(keys[0]))
-		if s.TryRLock(fresh(keys[0])) || s.TryLock(fresh(keys[0])) {
-			probeViol++
+		for _, kb := range keys {
+			k := fresh(kb)
+			s.Lock(k)
+			for n := 0; n < 8 && probeViol == 0; n++ {
+				if s.TryRLock(fresh(kb)) || s.TryLock(("p" + string(kb))[1:]) {
+					probeViol++
+				}
+			}
+			if probeViol != 0 {
+				return // which mutexes are held is unknown now: release nothing
+			}
+			s.Unlock(k) // the very string that was locked
 		}
 	}); p != "" {
 		return "panic=" + strings.TrimPrefix(p, "panic:"), true
@@ -537,7 +575,6 @@ func segStressRound(size, nkeys, g, iters int, seed uint64, st *stats) (string, 
 	if probeViol != 0 {
 		return fmt.Sprintf("viol=%d freefail=0 probe=1", probeViol), true
 	}
-	s.Unlock(fresh(keys[0]))
 	writers := make([]atomic.Int32, nkeys)
 	readers := make([]atomic.Int32, nkeys)
 	owner := make([]int, nkeys) // plain variable: written under Lock, read under RLock (race detector probe)
@@ -815,6 +852,38 @@ func run(ops []string, out *lineOut, st *stats) {
 		case sc != nil && w[0] == "idx":
 			kb := unhx(w[1])
 			st.KeyLens[lenBucket(len(kb))]++
+			if !whiteBox {
+				// no index observable: check the law itself when nothing is held — equal contents in
+				// distinct allocations exclude each other
+				excl := "skip"
+				_, _, anyW, anyR := sc.heldCounts(w[1])
+				if anyW == 0 && anyR == 0 && !sc.corrupt {
+					p := vlib.Catch(func() {
+						k1 := string(kb)
+						if sc.s.TryLock(k1) {
+							a, b := false, false
+							for n := 0; n < 8 && !a && !b; n++ {
+								a = sc.s.TryLock(fresh(kb))
+								b = !a && sc.s.TryRLock(("prefix-" + string(kb) + "-suffix")[7:7+len(kb)])
+							}
+							if a || b {
+								excl = "false"
+								sc.corrupt = true // do not release: which mutex is held is unknown
+							} else {
+								excl = "true"
+								sc.s.Unlock(k1) // the very string that was locked: cannot miss the mutex
+							}
+						}
+					})
+					if p != "" {
+						out.Line("%s => %s", line, p)
+						continue
+					}
+				}
+				st.Results["idx/blackbox"]++
+				out.Line("%s => blackbox excl=%s", line, excl)
+				continue
+			}
 			var i, j int
 			p := vlib.Catch(func() {
 				k1 := string(kb)
@@ -855,6 +924,16 @@ func run(ops []string, out *lineOut, st *stats) {
 			}
 			sg := sc.seg(idx)
 			hk := func(write bool) string { return fmt.Sprintf("%d|%s|%v", t, w[2], write) }
+			// would a blocking call block / does an obtained lock contradict the harness's record?
+			// white-box: per real segment; black-box: a blocking call is only made when it cannot
+			// block under any hashing (nothing conflicting held at all), contradictions per equal key
+			kw, kr, anyW, anyR := sc.heldCounts(w[2])
+			wBusy, rBusy := sg.w || sg.r > 0, sg.w
+			wContra, rContra := wBusy, rBusy
+			if !whiteBox {
+				wBusy, rBusy = anyW > 0 || anyR > 0, anyW > 0
+				wContra, rContra = kw > 0 || kr > 0, kw > 0
+			}
 			if sc.corrupt {
 				out.Line("%s => notrun-exclusion-already-broken", line)
 				continue
@@ -874,7 +953,7 @@ func run(ops []string, out *lineOut, st *stats) {
 			}
 			switch w[0] {
 			case "lock":
-				if sg.w || sg.r > 0 {
+				if wBusy {
 					res = "wouldblock"
 				} else if call(func() { sc.s.Lock(key) }) {
 					sg.w = true
@@ -889,7 +968,7 @@ func run(ops []string, out *lineOut, st *stats) {
 					}
 				}
 			case "rlock":
-				if sg.w {
+				if rBusy {
 					res = "wouldblock"
 				} else if call(func() { sc.s.RLock(key) }) {
 					sg.r++
@@ -902,7 +981,7 @@ func run(ops []string, out *lineOut, st *stats) {
 				if call(func() { ok = sc.s.TryLock(key) }) {
 					res = strconv.FormatBool(ok)
 					if ok {
-						sc.corrupt = sg.w || sg.r > 0
+						sc.corrupt = wContra
 						sg.w = true
 						sc.holds[hk(true)]++
 						sc.at[hk(true)] = append(sc.at[hk(true)], idx)
@@ -913,7 +992,7 @@ func run(ops []string, out *lineOut, st *stats) {
 				if call(func() { ok = sc.s.TryRLock(key) }) {
 					res = strconv.FormatBool(ok)
 					if ok {
-						sc.corrupt = sg.w
+						sc.corrupt = rContra
 						sg.r++
 						sc.holds[hk(false)]++
 						sc.at[hk(false)] = append(sc.at[hk(false)], idx)
